@@ -263,6 +263,20 @@ def run(facts, cg):
                                 'a scan at %s uses a %s that is not the archive\'s own (%s)' % (t['loc'], what, show(term)[:120]))
                     elif arch_for(out_arch, out_archs, b, bi) is not None and accessor_receiver(b, t['args'][targ], accessor) not in (None, arch_for(out_arch, out_archs, b, bi)):
                         finding('R-WIRE', b.q, 'scan-other-archive:inline', 'a scan at %s uses the %s of a different archive value' % (t['loc'], what))
+        # an index of what a scan finds that is created with anything but the archive's hash length (a constant, "the full hash"):
+        # `contains` / `remove` cut the probe to the index's length, `get` and the planner do not - the scan of the output finds every
+        # chunk and then plans copies without destinations (the chunk leaves the set of wanted chunks unwritten), or recognises nothing
+        for g in facts.bodies.values():
+            if g.crate != 'bita' or g.generated:
+                continue
+            for gbi, gt in g.calls():
+                if 'q' in gt['callee'] and callee_q(gt) == NEW_INDEX and gt['args']:
+                    term = simplify(T.resolve_env(simplify(T.of_operand(g, gt['args'][0]))))
+                    if any(n_[0] in ('param', 'cparam') for n_ in walk(term)) or has_call(term, 'Archive::chunk_hash_length'):
+                        continue
+                    scans += 1          # found, and wrong: report the wiring, not a missing anchor
+                    finding('R-WIRE', b.q, 'scan-hash:' + ([x for x in g.q.split('::') if not x.startswith('{')] or ['inline'])[-1],
+                            'the index built at %s from a scan is keyed with %s, not with the hash length of the archive' % (gt['loc'], show(term)[:60]))
         if scans < 4:
             finding('R-WIRE', b.q, 'floor', 'expected the output scan and the seed scans (config + hash length) to be found, got %d role sites: cannot decide' % scans)
     # what a scan (of a seed, of the prior output) sees is every chunk of that one input: nothing thins the chunker's stream
